@@ -18,6 +18,9 @@ PID = 'C20'
 NSDECL = xigen.NSDECL
 HOWS = ['path', 'url', 'lfis', 'rel']
 TIMEOUT = 30.0
+# every xi:include instantiates a parser: with the default 256 MB quarantine each of them runs on fresh pages (page-fault bound,
+# measured 2.5x slower); 16 MB still covers the lifetime of several nested inclusions
+ENV = {'ASAN_OPTIONS': core.SAN_ENV['ASAN_OPTIONS'] + ':quarantine_size_mb=16'}
 
 
 # ---------------------------------------------------------------------------------------------------------------------
@@ -128,10 +131,8 @@ ERROR_CAUSES = [  # feature of the graph -> construct class named in the key of 
     ('unused-fallback-with-include:root-doc', 'include-in-unused-fallback:root-doc'),
     ('href-dot-segments-through-missing-directory', 'href-dot-segments-through-missing-directory'),
     ('explicit-xml-base:included-root', 'explicit-xml-base:included-root'),
-    ('explicit-xml-base:included-doc', 'explicit-xml-base:included-doc'),
     ('text-over-16k-multibyte', 'text-include:over-16k-multibyte'),
     ('dtd-entities-or-defaults:included-doc', 'xml-include:dtd'),
-    ('explicit-xml-base:in-scope-of-include', 'explicit-xml-base:in-scope-of-include'),
 ]
 
 
@@ -265,7 +266,7 @@ def run(tier):
         profiles[g.meta['profile'].split(':')[0]] += 1
     rcases = repo_cases()
     ck.note('%d graph cases, %d in-repo documents' % (len(cases), len(rcases)))
-    recs = core.run_cases(binary, cases + rcases, tag='c20', per_case_timeout=TIMEOUT)
+    recs = core.run_cases(binary, cases + rcases, tag='c20', per_case_timeout=TIMEOUT, env=ENV)
     for k, v in recs.items():
         if k.startswith('__exit__'):
             ck.violation('C20:' + v.crash.key(), 'sanitizer report at process exit', {'report': v.crash.text[:4000]})
@@ -369,7 +370,7 @@ def replay(j):
     files, root = case_graph(c)
     res = xigen.expand(files, root)
     binary = build.ensure('asan', parts=['xinclude'])
-    recs = core.run_cases(binary, [c], shards=1, tag='c20r', per_case_timeout=TIMEOUT)
+    recs = core.run_cases(binary, [c], shards=1, tag='c20r', per_case_timeout=TIMEOUT, env=ENV)
     rec = recs.get(c.id)
     print('key      :', j.get('key'))
     print('root     :', root, ' api:', c.opt.get('api'), ' given as:', c.opt.get('how'))
